@@ -351,11 +351,12 @@ Fixpoint stmt_eqb (a b : stmt) {struct a} : bool :=
   end.
 Definition stmts_eqb := list_beq stmt_eqb.
 
-(* A structural hash (polynomial, modulo 2^61-1), mirrored in props/C28/check.py: lets the harness
+(* A structural hash (h' = (65537 * h + x) mod 2^56; cheap under vm_compute, and injective in any
+   single position since 65537 is odd), mirrored in props/C28/check.py: lets the harness
    ship the implementation's resulting tree as one number for most cases (a sample is still
    compared node by node with [stmts_eqb]). *)
-Definition hmod : Z := 2305843009213693951%Z.
-Definition mix (h x : Z) : Z := ((h * 1000003 + x) mod hmod)%Z.
+Definition hmask : Z := 72057594037927935%Z.     (* 2^56 - 1 *)
+Definition mix (h x : Z) : Z := Z.land (65537 * h + x)%Z hmask.
 Definition binop_code (o : binop) : Z :=
   match o with Add => 1 | Sub => 2 | Mul => 3 | Div => 4 | Pow => 5 | Eq => 6 | Ne => 7 | Lt => 8
              | Le => 9 | Gt => 10 | Ge => 11 | And => 12 | Or => 13 end%Z.
